@@ -411,13 +411,16 @@ def _check_blocks(idx, rep, rule, f, names):
         calls_ = [st for st in sts.values() if isinstance(st.value, ast.Call) and _is_subquery(idx, f, st)]
         ok, why = True, ""
         if calls_:
-            call = calls_[0].value
+            # the sub-query that yields the DISTANCE is the reference; a returned point that is itself an argument of that call (the point the distance
+            # was measured from, wherever it was bound before) belongs to the same event
+            primary = assigned.get(names[0]) if assigned.get(names[0]) in calls_ else calls_[0]
+            call = primary.value
             argtxt = {u(a) for a in call.args}
             for n, st in assigned.items():
-                if st is calls_[0]:
+                if st is primary or n in argtxt:
                     continue
                 if st in calls_:
-                    ok, why = False, "%s and %s come from two different calls" % (u(calls_[0].targets[0]), n)
+                    ok, why = False, "%s and %s come from two different calls" % (u(primary.targets[0]), n)
                 elif u(st.value) not in argtxt:
                     ok, why = False, "`%s = %s` is not an argument of `%s`" % (n, u(st.value), u(call)[:60])
         else:
